@@ -470,6 +470,15 @@ func runC01(w *World, r *Report) {
 		}
 	}
 
+	r.Rule("C01.option-copies-complete", "a value of one of package compose's option carriers (struct types named …Options / …Opts) that is rebuilt by copying fields from another value of the same type (options handed down to a nested graph, per-compile copies) sets every field of the type: a forgotten maxRunSteps gives the nested graph the default limit, a forgotten trigger mode another execution model", 0)
+	if k := fieldCopiesComplete(w, r, "C01.option-copies-complete", "with compile callbacks on the parent, a nested cyclic graph added with WithGraphCompileOptions(WithMaxRunSteps(n)) loses its limit — a loop limited to 3 steps counts to 8, one allowed 40 fails after nodes+10", func(n *types.Named) bool {
+		nm := n.Obj().Name()
+		return strings.HasSuffix(nm, "Options") || strings.HasSuffix(nm, "Opts")
+	}, "compose"); k == 0 {
+		r.Info("C01.option-copies-complete", "no option carrier of package compose is rebuilt field by field from another value of its type", token.NoPos, "nothing to decide (a whole-struct copy `c := *p` copies every field)")
+	}
+
+	shareRule(w, r, "C01.fan-in-keeps-errors", "a stream handed to a fan-in forwards the error item of its source: a predecessor whose stream fails in the middle must not reach the successor as a clean, shorter stream (the node would run on a truncated merge and the run report success)", 1, "C04", "C04.stream-errors-forwarded")
 	r.Rule("C01.end-short-circuit", "END's value is returned before tasks are created and before the next submit", 4)
 	calc := w.Fn("compose", "runner.calculateNextTasks")
 	create := w.Fn("compose", "runner.createTasks")
